@@ -15,11 +15,12 @@ rule = ("scripts = 'p fmt <description of the style> 255 255' then groups of 'p 
         "shape with <= 5 nodes (thorough: 6) x 4 name patterns (distinct / all equal / alternating / digits and dashes) x 4 value patterns x the "
         "styles that can express it (brace: all; sep, bar: options + one level of sections; enc: option lists) x 4 decorations; stream 2 = random forests (depth <= 5, fan-out <= 5, names "
         "up to 300 bytes, values of 1..40 bytes and of 249..257 bytes, thorough: 65534..65537 bytes, values that "
-        "need quoting, embedded quotes/backslashes/line feeds/high bytes); non-trivial = the real code returned a "
+        "need quoting, embedded quotes/backslashes/line feeds/high bytes); stream 3 = names that contain the path "
+        "separator '.' (known finding dot-in-name); non-trivial = the real code returned a "
         "tree with at least one section that has children or one value, counted per distinct script")
 assumptions = [
-    "forests are restricted to `Render.admissible` (names of letters/digits/_/-; values without zero byte and, "
-    "when they need quotes, without a trailing backslash; flat styles: options first, one level of sections)",
+    "forests are restricted to `Render.admissible` (names of letters/digits/_/-; values without zero byte; "
+    " flat styles: options first, one level of sections)",
     "name flags 0xff for sections and options; format descriptions: default (brace), '[ ] = #' (sep), '|x| = #' (bar), "
     "'{x} = #' (enc)",
     "the value of a node is observed through its character vector conversion (terminating zero dropped); buffer-backed "
@@ -109,7 +110,8 @@ NAMEPATS = [lambda i: b"abcdefgh"[i:i + 1], lambda i: b"a", lambda i: (b"k1", b"
 VALPATS = [lambda i: (b"1", b"two words", b"x")[i % 3],
            lambda i: (None, b"", b"\"q\" # \\\" '", b"#h")[i % 4],
            lambda i: (b" lead", b"trail ", b"a\nb", b"\\\"", b"\x80\xff=")[i % 5],
-           lambda i: (b"{", b"}", b"[x]", b"|", b"a=b")[i % 5]]
+           lambda i: (b"{", b"}", b"[x]", b"|", b"a=b")[i % 5],
+           lambda i: (b" x\\", b"\"\\\\", b"#\\\"\\", b"\\", b"a\\ ")[i % 5]]
 
 
 def assemble(name, style, items, per=10):
@@ -154,8 +156,10 @@ def _rand_value(r, tier):
         L = r.choice([65534, 65535, 65536, 65537])
     else:
         L = r.choice([1, 1, 2, 3, 5, 8, 13, 40])
-    pool = r.choice([b"abc xyz019", b"ab \"'\\#=", bytes(range(1, 256)), b"a b\n\t", b"x"])
+    pool = r.choice([b"abc xyz019", b"ab \"'\\#=", bytes(range(1, 256)), b"a b\n\t", b"x", b"\\\" "])
     v = bytes(r.choice(pool) for _ in range(L))
+    if r.random() < 0.15:
+        v += b"\\" * r.choice([1, 2, 3])
     return v
 
 
@@ -191,8 +195,32 @@ def random_forests(tier, seed, scale):
     return out
 
 
+def dotted(tier):
+    """names with the path separator '.' (permitted by the name flags, outside `Render.admissible`): the
+    parser refuses them, see the known finding `dot-in-name`"""
+    forests = [
+        [(b"a.b", b"1", None)],
+        [(b".", b"x y", None), (b"c", b"2", None)],
+        [(b"c", b"2", None), (b"k.", None, None)],
+        [(b"s.t", None, [(b"k", b"v", None)])],
+        [(b"s", None, [(b"k.v", b"v", None)])],
+    ]
+    out = []
+    for style in STYLES:
+        reqs = [(style, d, forest_text(f)) for f in forests for d in (0, 2)]
+        res = render_all(reqs)
+        for (st, d, ft), (h, adm) in zip(reqs, res):
+            if not h or adm:
+                continue
+            if style == "enc" and "(" in ft:
+                continue
+            lines = [fmt_line(style), "p root .", "p render %s %d %s %s" % (style, d, ft, h), "p node", "p end"]
+            out.append(("dot:%s:%d:%s" % (style, d, ft), lines))
+    return out
+
+
 def scripts(tier, seed, scale=1):
-    return exhaustive(tier) + random_forests(tier, seed, scale)
+    return exhaustive(tier) + random_forests(tier, seed, scale) + dotted(tier)
 
 
 def nontrivial(script, c_lines):
@@ -214,6 +242,25 @@ def tally(chk, script, c_lines):
             d[k] = d.get(k, 0) + 1
 
 
+def _names(forest_txt):
+    import re
+    return [m.group(1) for m in re.finditer(r"(?:^|[,(])([0-9a-f]+|-)", forest_txt)]
+
+
 def finding_key(script, res):
     op = (res.get("op") or "").split()
+    line = res.get("line", -1)
+    # the forest the failing `p node` was given
+    forest = None
+    for ln in script[:line + 1][::-1]:
+        w = ln.split()
+        if len(w) == 6 and w[1] == "render":
+            forest = w[4]
+            break
+    if (res["kind"] == "c_ne_s" and len(op) > 1 and op[1] == "node" and forest is not None
+            and "code: R err" in (res.get("detail") or "")):
+        names = _names(forest)
+        dots = [n for n in names if n != "-" and "2e" in [n[i:i + 2] for i in range(0, len(n), 2)]]
+        if dots:
+            return "c_ne_s:node:dot-in-name"
     return "%s:%s" % (res["kind"], op[1] if len(op) > 1 else "?")
